@@ -780,3 +780,24 @@ Proof.
   - apply orb_true_iff. apply (I_ret s HI c p). auto.
 Qed.
 
+
+(* whatever the scheduler does after pm.ctx was cancelled: when no internal step is left, everything has terminated *)
+Lemma shutdown_any_schedule s ls s' :
+  Inv s -> pm_ctx s = true -> run true s ls = Some s' ->
+  (forall l, internal l = true -> step true s' l = None) -> all_terminated s'.
+Proof.
+  intros HI Hctx Hr Hstuck.
+  pose proof (inv_run true ls s s' HI Hr) as HI'.
+  destruct (progress s' HI') as [Hq|[l [s2 [Hl E]]]].
+  - apply quiescent_shutdown; auto. eapply run_pm_ctx; eauto.
+  - rewrite (Hstuck l Hl) in E. discriminate.
+Qed.
+
+Lemma no_deadlock s : reachable true s ->
+  (quiescent s \/ exists l s', internal l = true /\ step true s l = Some s')
+  /\ (exists ls s', forallb internal ls = true /\ run true s (shutdown_labels s ++ ls) = Some s' /\ all_terminated s').
+Proof.
+  intros HR. pose proof (inv_reachable true s HR) as HI. split.
+  - apply progress; auto.
+  - apply shutdown_completes; auto.
+Qed.
